@@ -15,7 +15,7 @@ CHECK = {
     "srcs": [],                       # WrappableGrid.hpp / Grid.hpp are header-only
     "flavours": ["asan"],
     # watchdogs are sized for a machine shared with other checks (calibrated CPU time, all shards together:
-    # quick ~70 s; thorough ~500 s bounded-exhaustive (int + uint8_t) + ~550 s random, i.e. < 1 min per shard on an idle
+    # quick ~20 s; thorough ~500 s bounded-exhaustive (int + uint8_t) + ~550 s random, i.e. < 1 min per shard on an idle
     # 16-core machine)
     "quick": {"shards": 8, "timeout": 1800},
     "thorough": {"shards": 16, "timeout": 14400},
@@ -27,14 +27,25 @@ CHECK = {
                             "cells_int", "cells_double", "cells_string",
                             # other instantiations of the template: byte-sized and 2-byte cells
                             "cells_uint8", "cells_int8", "cells_char", "cells_uint16",
-                            "exh_cells_int", "exh_cells_uint8"],
+                            "cells_float", "cells_rgb3",
+                            "exh_cells_int", "exh_cells_uint8",
+                            # histories that start with 2^8+k / 2^16+k identical translations, observed afterwards
+                            "long_history_2p8", "long_history_2p16"],
     "required_oracles": ["cells.survivors_keep_value", "cells.entrants_read_empty",
-                         "offset.accumulated_mod_size"],
+                         "offset.accumulated_mod_size",
+                         "stability.bound_offset_reference", "stability.bound_cell_reference", "stability.value_snapshot",
+                         "value_semantics.copy_behaves_as_original",
+                         "interference.sibling_objects_leave_grid_unchanged", "base_grid.cell_reads_last_write"],
     "required_counters": ["states", "transitions", "bfs3d_transitions", "bfs2d_transitions", "enum2d_sequences",
                           "exh_byte_cells_transitions",
                           "translation_after_nonzero_offset", "negative_z_with_survivors",
                           "offset_below_minus_n", "offset_nonzero_multiple_of_n", "offset_magnitude_above_n",
-                          "writes", "written_cell_survived_translation"],
+                          "writes", "written_cell_survived_translation",
+                          "grid_copies_moves_assignments", "sibling_object_operations",
+                          "translations_with_own_cell_as_empty_value", "translations_with_rvalue_empty_value",
+                          "accesses_indexed_by_own_offset_getter", "duplicate_value_writes",
+                          "repeated_identical_translations", "equal_component_translations",
+                          "long_history_2p8_translations", "long_history_2p16_translations"],
     "rule": "case index < number of exhaustive units: one unit of the bounded-exhaustive part (every unit exists twice: "
             "int cells and uint8_t cells; pristine cells hold unique ids (uint8: consecutive values modulo 240), the empty "
             "value of the k-th translation of a history is -(10+k) (uint8: 240+k), per-axis offsets of every "
@@ -48,12 +59,27 @@ CHECK = {
             "others); the last expansion of a search is split in chunks (one unit each), counters 'states' = distinct states "
             "expanded, 'transitions' = translations executed and fully compared; 'exhaustive' (claimed by the thorough tier "
             "only, whose units cover the whole stated bounded scope) refers to this part. Remaining case indices: random histories from PRNG(seed, index): 2D/3D grids "
-            "of 1..8 cells/axis with int / double / std::string / uint8_t / int8_t / char / uint16_t cells (strings beyond the "
+            "of 1..8 cells/axis with int / double / float / std::string / uint8_t / int8_t / char / uint16_t / 3-byte struct cells (strings beyond the "
             "small-string buffer, NaN, -0.0, INT_MIN, 0x00/0x7f/0x80/0xff as values; grids of byte cells are kept <= 240 cells by "
             "shrinking the leading axes so that the 240 ids stay unambiguous, the last axis keeps sizes 1..8), 1..50 translations with per-axis offsets up to +-2n (uniform, small, single-axis, "
             "{0,+-1,+-(n-1),+-n,+-(n+1),+-(2n-1),+-2n}, all-negative), explicit / special / defaulted empty value, "
             "interleaved with bursts of operator() writes and occasional setValue; all cells and the reported offset are "
-            "compared with the reference after EVERY operation.  Non-trivial = the history contains >= 2 translations "
+            "compared with the reference after EVERY operation.  Cross-application classes inside every random history: "
+            "(1) the const references returned by getIndexOffsetAlongAxes() and by the const operator() are bound once after "
+            "each translation/copy and re-read after later writes, setValue and sibling-object operations, values copied out "
+            "of the pristine grid are re-compared at the end; (2) copy-construct / copy-assign onto a grid of other sizes / "
+            "move-construct / move-assign / self-assign / copy-use-destroy in mid-history, source overwritten and destroyed, "
+            "the history continues on the copy; (3) the empty value passed as a reference to one of the grid's own cells "
+            "(expected = its value at call time), cells assigned from the grid's own accessor, the offset getter's reference "
+            "passed straight back as cell index; (4) empty values and written values also as temporaries and std::move'd; "
+            "(5) random index % 50 == 3 / % 1000 == 7: the history starts with 2^8+k / 2^16+k (k<=5) identical translations "
+            "by a small offset on a grid of <= 4 / <= 3 cells per axis, observed only afterwards; (8) between observations a "
+            "second WrappableGrid with its own reference model, a plain Grid (sizing constructor or default constructor + "
+            "init, written cell by cell, read back through const and non-const operator()) and short-lived temporary grids "
+            "are operated; (9) all-zero translations, +-n, +-2n, equal offsets on all axes, the same translation twice in a "
+            "row, an empty value equal to a value already in the grid, the same value written twice.  Offsets beyond +-2n "
+            "per translation are not generated (the statement's quantifier stops there; accumulated offsets reach 2^17 in "
+            "the long histories).  Non-trivial = the history contains >= 2 translations "
             "(the unit tests never translate twice); distinct = hash of (cell type, dimension, sizes, every operation)",
     "level_text": "exploration: the real WrappableGrid is driven through every translation history of the bounded scope "
                   "(2D grids up to 4x4 and, in the thorough tier, 3D grids up to 3x3x3, up to 3 translations with per-axis "
@@ -74,6 +100,13 @@ CHECK = {
                     "the behaviour of translate() is a function of the object's state (index offsets + buffer) and its "
                     "arguments only, which is what makes state de-duplication sound",
                     "values are compared bitwise for double (NaN and -0.0 must come back), by == for the integral types and std::string",
+                    "a reference to a cell (operator()) is only required to keep denoting that logical cell until the next "
+                    "translation or copy of the same grid; the reference returned by getIndexOffsetAlongAxes() is required to "
+                    "stay live (show the current accumulated offset) for the lifetime of the grid",
+                    "copies made by the implicitly generated copy operations (moves degrade to copies because of the "
+                    "user-declared destructor) must behave as the original; a plain Grid is only required to read back the "
+                    "last value written to a logical cell (what a never-translated window shows), nothing about its layout",
+                    "Grid::init() on an already used WrappableGrid (re-sizing) is outside the statement and not exercised",
                     "bool cells are not covered: Grid<bool> does not compile (operator() returns T& into std::vector<bool>)",
                     "g++ 12 ASan+UBSan runtime; asserts live (no -DNDEBUG)"],
 }
